@@ -368,6 +368,22 @@ func c05MutateValue(r *kit.Rand, v any, refs []kit.XRef, budget *int) any {
 		if r.Chance(1, 3) && len(raw) > 0 {
 			raw = bytes.Clone(raw)
 			raw[r.Intn(len(raw))] ^= byte(1 + r.Intn(255))
+		} else if r.Chance(1, 5) {
+			// a long tail behind the decoded data (what a parser that stops at an
+			// end marker never reads): plain streams and streams with /Filter /FlateDecode
+			tail := []byte(kit.Pick(r, []string{"\nstop\n", "\x80\x03", "\ncleartomark\n", "%%EOF\n", ""}))
+			tail = append(tail, bytes.Repeat([]byte{byte(r.Intn(256))}, kit.Pick(r, []int{9000, 70000, 500000}))...)
+			_, hasParms := d["DecodeParms"]
+			switch f := d["Filter"]; {
+			case f == nil:
+				raw = append(bytes.Clone(raw), tail...)
+				*budget--
+			case f == kit.XName("FlateDecode") && !hasParms:
+				if plain, err := kit.Inflate(raw); err == nil {
+					raw = kit.Deflate(append(plain, tail...))
+					*budget--
+				}
+			}
 		}
 		if _, has := d["Length"]; !has {
 			d["!NoLength"] = true
@@ -562,6 +578,7 @@ func TestVerifC05(t *testing.T) {
 	if len(seeds) < 10 {
 		t.Fatalf("only %d seed documents could be built", len(seeds))
 	}
+	c05SeedDocs = seeds
 	n := r.N(12000, 1500000)
 	if os.Getenv("VERIF_C05_SMALL") != "" {
 		n /= 20 // the race-detector build runs a twentieth of the cases
@@ -739,7 +756,12 @@ func c05Crafted(r *kit.Rand) ([]byte, string) {
 	levels := kit.Pick(r, []int{8, 20, 40, 64, 200})
 	fan := kit.Pick(r, []int{2, 2, 3, 16})
 	what := ""
-	switch k := r.Intn(9); k {
+	switch k := r.Intn(10); k {
+	case 9: // embedded font programs with a long tail behind their end
+		if data, ok := c05FontTail(r); ok {
+			return data, "font-program-with-tail"
+		}
+		fallthrough
 	case 8: // a decoder with a helper goroutine as the filter of the cross-reference stream or of an object stream
 		what = "helper-decoder-in-container"
 		return c05HelperInContainer(r), what
@@ -917,6 +939,82 @@ func c05TableLast(eol string) ([]byte, int) {
 	b.WriteString(sx)
 	b.Write(tail.Bytes())
 	return b.Bytes(), start
+}
+
+// c05SeedDocs are the seed documents of the shard (set by the test): the
+// crafted patterns that start from a valid file take them from here.
+var c05SeedDocs [][]byte
+
+// c05FontTail takes a seed document and appends a tail to the decoded data of
+// every embedded font program (streams with /Length1): bytes behind the end
+// marker of the font, which a parser that stops there never reads.
+func c05FontTail(r *kit.Rand) ([]byte, bool) {
+	if len(c05SeedDocs) == 0 {
+		return nil, false
+	}
+	for try := 0; try < 6; try++ {
+		xf, err := kit.ParseFile(kit.Pick(r, c05SeedDocs))
+		if err != nil || xf == nil {
+			continue
+		}
+		root, ok := xf.Trailer["Root"].(kit.XRef)
+		if !ok {
+			continue
+		}
+		h := &kit.XHistory{Version: xf.Version, Root: root}
+		rev := kit.XRev{Actions: map[uint32]kit.XAction{}, Kind: "table", Extra: kit.XDict{}}
+		if v, ok := xf.Trailer["Info"]; ok {
+			rev.Extra["Info"] = v
+		}
+		if _, enc := xf.Trailer["Encrypt"]; enc {
+			continue
+		}
+		grown := 0
+		for n, o := range xf.Objects {
+			if o.InObjStm {
+				rev.Actions[n] = kit.XAction{Gen: o.Gen, Value: o.Value}
+				continue
+			}
+			stm, isStream := o.Value.(*kit.XStream)
+			if isStream {
+				if t := stm.Dict["Type"]; t == kit.XName("XRef") || t == kit.XName("ObjStm") {
+					continue
+				}
+				if _, isFont := stm.Dict["Length1"]; isFont {
+					tail := []byte(kit.Pick(r, []string{"\nstop\n", "\x80\x03", "\ncleartomark\nstop\n", ""}))
+					tail = append(tail, bytes.Repeat([]byte{byte(r.Intn(256))}, kit.Pick(r, []int{20000, 100000, 500000}))...)
+					d := kit.XDict{}
+					for k, v := range stm.Dict {
+						if k != "Length" {
+							d[k] = v
+						}
+					}
+					raw := stm.Raw
+					_, hasParms := d["DecodeParms"]
+					switch f := d["Filter"]; {
+					case f == nil:
+						raw = append(bytes.Clone(raw), tail...)
+						grown++
+					case f == kit.XName("FlateDecode") && !hasParms:
+						if plain, err := kit.Inflate(raw); err == nil {
+							raw = kit.Deflate(append(plain, tail...))
+							grown++
+						}
+					}
+					rev.Actions[n] = kit.XAction{Gen: o.Gen, Value: &kit.XStream{Dict: d, Raw: raw}}
+					continue
+				}
+			}
+			rev.Actions[n] = kit.XAction{Gen: o.Gen, Value: o.Value}
+		}
+		if grown == 0 {
+			continue
+		}
+		h.Revs = []kit.XRev{rev}
+		out, _ := kit.RenderHistory(r, h, true, nil)
+		return out, true
+	}
+	return nil, false
 }
 
 // c05HelperInContainer writes (by hand) a file whose cross-reference stream or
